@@ -66,6 +66,7 @@ class Check:
         os.makedirs(f"{V}/evidence/replay", exist_ok=True)
         self.rng = random.Random(seed)
         self.known = [k for k in load_known() if k.get("property") == prop and k.get("status", "known") == "known"]
+        self.gen_units = ()         # translated packages the property's theorems rest on (set by check.py from GEN_UNITS)
 
     # ---------------------------------------------------------------- F
     def step_facts(self):
@@ -90,18 +91,29 @@ class Check:
                 with open(path, "w") as f:
                     f.write(new)
             self.coverage["facts_regenerated"] = new.count("\ndef ")
-            # tie G: the translated Go functions (Generated/Code.lean)
+            # tie G: the translated Go functions (Generated/Code.lean), one section per translated package ("unit").
+            # A unit that no longer translates keeps its previous section (so that everything else still builds) and
+            # is a broken tie only for the properties whose theorems rest on it (GEN_UNITS of the property).
             p = subprocess.run([exe, REPO, "code"], stdout=subprocess.PIPE, stderr=subprocess.PIPE)
             if p.returncode != 0:
-                self.failures.append(Failure("translation", "the Go-to-Lean translation of the modelled functions failed "
-                                             "(the source left the translated subset or a translated function disappeared)",
-                                             p.stderr.decode()))
+                self.failures.append(Failure("translation", "the Go-to-Lean translator failed", p.stderr.decode()))
                 return False
             new = p.stdout.decode()
             path = f"{LEAN}/DtailModel/Generated/Code.lean"
             old = open(path).read() if os.path.exists(path) else ""
-            if new != old:
+            failed = re.findall(r"^-- UNIT (\w+) FAILED: (.*)$", new, re.M)
+            for unit, msg in failed:
+                m = re.search(r"namespace Dtail\.Gen\." + unit + r"\n.*?end Dtail\.Gen\." + unit + r"\n\n", old, re.S)
+                if m:
+                    new = re.sub(r"^-- UNIT " + unit + r" FAILED: .*\n\n", lambda _: m.group(0), new, flags=re.M)
+                if unit in self.gen_units:
+                    self.failures.append(Failure("translation", f"the Go-to-Lean translation of package unit {unit} failed (the source left the "
+                                                 "translated subset or a translated function disappeared): " + msg, msg))
+                else:
+                    self.notes.append(f"translated unit {unit} no longer translates (not used by this property): {msg[:200]}")
+            if new != old and not any(u in self.gen_units for u, _ in failed):
                 self.notes.append("translated code changed")
+            if new != old:
                 with open(path, "w") as f:
                     f.write(new)
             self.coverage["functions_translated"] = new.count("\ndef ") - new.count(" : AggregateOperation := ")
